@@ -95,7 +95,7 @@ def run(ctx):
       q = prog.resolve_call(pc, c)
       if q in SEMANTIC_OPS:
         sem.append((c, q))
-  ctx.expect_at_least('semantic operations in the statement consumer', len(sem), 6)
+  ctx.expect_at_least('semantic operations in the statement consumer', len(sem), 4)
   for c, q in sem:
     inst = '%s@%s' % (SEMANTIC_OPS[q], u(c)[:60])
     if not in_subtree(c, stmt_loop):
@@ -225,7 +225,7 @@ def run(ctx):
         has = any(u(a) == locvar for a in c.args) or any(u(k.value) == locvar for k in c.keywords)
         ctx.check(has, 'C16.located', construct(st), '`%s` carries the statement-start location' % u(c.func),
                   '`%s` is not given the statement-start location' % u(c)[:80], st.loc(c), instance=u(c.func))
-    ctx.expect_at_least('statement constructors in parse_statement', uses, 4)
+    ctx.expect_at_least('statement constructors in parse_statement', uses, 3)
 
   # ---- C16.type
   au = ctx.func('utils.augment_exception_message_and_reraise')
